@@ -3,7 +3,7 @@
    witnesses for the defects that the faithful model reproduces. *)
 From Coq Require Import QArith Qring Qfield Setoid Morphisms Lia List ZArith NArith Bool.
 From SE Require Import C31.VisitorModel.
-From SE Require Import C31.SeriesSpec C31.Invert C31.LogAtan C31.Exp C31.Nthroot C31.Hyp C31.SinCos C31.Tanh C31.Tan.
+From SE Require Import C31.SeriesSpec C31.Invert C31.LogAtan C31.Exp C31.Nthroot C31.Hyp C31.SinCos C31.Tanh C31.Tan C31.Asin C31.Lambert.
 Local Open Scope Q_scope.
 
 (* ------------------------------------------------------------------ primitives *)
@@ -87,7 +87,7 @@ Qed.
 Theorem nthroot_spec_b s (np : positive) prec c :
   wfb s = true -> const0 s = false -> (2 <= Zpos np)%Z -> prec_ok prec = true ->
   qroot (find_cf s 0) np = Ok c ->
-  exists r, series_nthroot s (Zpos np) prec = Ok r /\ wf r /\
+  exists r, series_nthroot s (Zpos np) prec = Ok r /\ wf r /\ den r O == c /\
             eqn (N.to_nat prec) (ppow_s (den r) (Pos.to_nat np)) (den s).
 Proof.
   intros W H Hn Hp Hq. apply (nthroot_spec s np prec c);
@@ -97,7 +97,7 @@ Qed.
 Theorem nthroot_inv_spec_b s (np : positive) prec c :
   wfb s = true -> const0 s = false -> (2 <= Zpos np)%Z -> prec_ok prec = true ->
   qroot (find_cf s 0) np = Ok c -> qis0 c = false ->
-  exists r, series_nthroot s (Zneg np) prec = Ok r /\ wf r /\
+  exists r, series_nthroot s (Zneg np) prec = Ok r /\ wf r /\ den r O == / c /\
             eqn (N.to_nat prec) (ppow_s (den r) (Pos.to_nat np) * den s)%ps p1.
 Proof.
   intros W H Hn Hp Hq Hc. apply (nthroot_inv_spec s np prec c);
@@ -305,6 +305,113 @@ Proof.
   - exact HR.
   - apply peq_eqn. exact Yd.
   - rewrite R0, Y0. reflexivity.
+Qed.
+
+(* ------------------------------------------------------------------ asin / asinh *)
+Definition prec_ok2 (prec : N) : bool := ((1 <? prec) && (prec <? 2147483648))%N.
+Lemma prec_ok2_lt prec : prec_ok2 prec = true -> (1 < prec < 2147483648)%N.
+Proof.
+  unfold prec_ok2. intros H. apply andb_prop in H. destruct H as [H1 H2].
+  apply N.ltb_lt in H1. apply N.ltb_lt in H2. lia.
+Qed.
+
+Theorem asin_spec_b s prec :
+  wfb s = true -> const0 s = true -> prec_ok2 prec = true ->
+  exists r (w : ps), series_asin s prec = Ok r /\ wf r /\ den r O == 0 /\ w O == 1 /\
+    eqn (N.to_nat prec - 1) (w * w * (p1 - den s * den s))%ps p1 /\
+    pD (den r) =p (pD (den s) * w)%ps.
+Proof.
+  intros W H Hp. apply asin_spec;
+    [apply wfb_wf; exact W|apply const0_coef; assumption|apply prec_ok2_lt; exact Hp].
+Qed.
+
+Theorem asinh_spec_b s prec :
+  wfb s = true -> const0 s = true -> prec_ok2 prec = true ->
+  exists r (w : ps), series_asinh s prec = Ok r /\ wf r /\ den r O == 0 /\ w O == 1 /\
+    eqn (N.to_nat prec - 1) (w * w * (p1 + den s * den s))%ps p1 /\
+    pD (den r) =p (pD (den s) * w)%ps.
+Proof.
+  intros W H Hp. apply asinh_spec;
+    [apply wfb_wf; exact W|apply const0_coef; assumption|apply prec_ok2_lt; exact Hp].
+Qed.
+
+(* y(0) = 0, y' = s' v with v the inverse square root of 1 -+ s^2 with v(0) = 1 *)
+Lemma arc_taylor_aux s prec r (w y v t : ps) :
+  (1 < prec < 2147483648)%N ->
+  den r O == 0 -> w O == 1 -> y O == 0 -> v O == 1 -> ~ t O == 0 ->
+  eqn (N.to_nat prec - 1) (w * w * t)%ps p1 -> (v * v * t)%ps =p p1 ->
+  pD (den r) =p (pD (den s) * w)%ps -> pD y =p (pD (den s) * v)%ps ->
+  eqn (N.to_nat prec) (den r) y.
+Proof.
+  intros Hp R0 W0 Y0 V0 T0 Hw Hv Dr Dy.
+  replace (N.to_nat prec) with (S (N.to_nat prec - 1)) by lia.
+  apply pD_eqn_S; [rewrite R0, Y0; reflexivity|].
+  rewrite Dr, Dy. apply eqn_mul; [reflexivity|].
+  apply (sqrt_unique _ w v t T0).
+  - unfold padd_s. rewrite W0, V0. discriminate.
+  - exact Hw.
+  - apply peq_eqn. exact Hv.
+Qed.
+
+Theorem asin_taylor s prec r (y v : ps) :
+  wfb s = true -> const0 s = true -> prec_ok2 prec = true ->
+  series_asin s prec = Ok r ->
+  y O == 0 -> v O == 1 -> (v * v * (p1 - den s * den s))%ps =p p1 ->
+  pD y =p (pD (den s) * v)%ps ->
+  eqn (N.to_nat prec) (den r) y.
+Proof.
+  intros W H Hp Er Y0 V0 Hv Dy.
+  destruct (asin_spec_b s prec W H Hp) as (r' & w & Er' & _ & R0 & W0 & Hw & Dr).
+  rewrite Er in Er'. inversion Er'; subst r'.
+  apply (arc_taylor_aux s prec r w y v (p1 - den s * den s)%ps (prec_ok2_lt prec Hp) R0 W0 Y0 V0);
+    try assumption.
+  unfold psub_s. rewrite pmul_coef0. change (den s O) with (coef s 0).
+  rewrite (const0_coef s W H). change (p1 O) with 1. intro Hc. discriminate Hc.
+Qed.
+
+Theorem asinh_taylor s prec r (y v : ps) :
+  wfb s = true -> const0 s = true -> prec_ok2 prec = true ->
+  series_asinh s prec = Ok r ->
+  y O == 0 -> v O == 1 -> (v * v * (p1 + den s * den s))%ps =p p1 ->
+  pD y =p (pD (den s) * v)%ps ->
+  eqn (N.to_nat prec) (den r) y.
+Proof.
+  intros W H Hp Er Y0 V0 Hv Dy.
+  destruct (asinh_spec_b s prec W H Hp) as (r' & w & Er' & _ & R0 & W0 & Hw & Dr).
+  rewrite Er in Er'. inversion Er'; subst r'.
+  apply (arc_taylor_aux s prec r w y v (p1 + den s * den s)%ps (prec_ok2_lt prec Hp) R0 W0 Y0 V0);
+    try assumption.
+  unfold padd_s. rewrite pmul_coef0. change (den s O) with (coef s 0).
+  rewrite (const0_coef s W H). change (p1 O) with 1. intro Hc. discriminate Hc.
+Qed.
+
+(* ------------------------------------------------------------------ lambertw *)
+Theorem lambertw_spec_b s prec :
+  wfb s = true -> const0 s = true -> prec_ok prec = true ->
+  exists r (E : ps), series_lambertw s prec = Ok r /\ wf r /\ den r O == 0 /\ E O == 1 /\
+    eqn (N.to_nat prec - 1) (pD E) (pD (den r) * E)%ps /\
+    eqn (N.to_nat prec) (den r * E)%ps (den s).
+Proof.
+  intros W H Hp.
+  destruct (lambertw_spec s prec (wfb_wf s W) (const0_coef s W H) (prec_ok_lt prec Hp))
+    as (r & Er & Wr & R0 & E & E0 & H1 & H2).
+  exists r, E. split; [exact Er|]. split; [exact Wr|]. split; [exact R0|]. split; [exact E0|].
+  split; [exact H1|exact H2].
+Qed.
+
+Theorem lambertw_taylor s prec r (y F : ps) :
+  wfb s = true -> const0 s = true -> prec_ok prec = true ->
+  series_lambertw s prec = Ok r ->
+  y O == 0 -> F O == 1 -> pD F =p (pD y * F)%ps -> (y * F)%ps =p den s ->
+  eqn (N.to_nat prec) (den r) y.
+Proof.
+  intros W H Hp Er Y0 F0 Fd Fm.
+  destruct (lambertw_spec_b s prec W H Hp) as (r' & E & Er' & _ & R0 & E0 & H1 & H2).
+  rewrite Er in Er'. inversion Er'; subst r'.
+  apply (lambert_unique (N.to_nat prec) (den s) (den r) E y F R0 Y0 E0 F0 H1).
+  - apply peq_eqn. exact Fd.
+  - exact H2.
+  - apply peq_eqn. exact Fm.
 Qed.
 
 (* ------------------------------------------------------------------ refutations *)
